@@ -164,12 +164,12 @@ def _set_core(x, arg):
         return None
     k = 0 if arg in ('same0', 'grow0') else len(x.N) - 1
     c = x.cores[k]
-    if arg.startswith('same'):
-        new = torch.ones_like(c) * 0.5
-    else:
-        shp = list(c.shape)
+    # a generic replacement core (a constant core can reproduce the old norm / value by coincidence)
+    shp = list(c.shape)
+    if not arg.startswith('same'):
         shp[1] += 1
-        new = torch.ones(shp, dtype=c.dtype) * 0.25
+    dtn = ref.DTN.get(c.dtype, 'f64')
+    new = values.dense_tensor(shp, dtn, 'gauss', 0, 'setcore%s' % arg) * 0.7
     x.set_core(k, new)
     return None
 
@@ -210,9 +210,9 @@ UNARY = [
     Ev('numpy', 1, lambda x, a: x.numpy(), _small),
     Ev('mul_scalar', 1, lambda x, a: x * a, args=(2.0, 0)),
     Ev('rmul_scalar', 1, lambda x, a: 2.0 * x),
-    Ev('add_scalar', 1, lambda x, a: x + 1.0),
-    Ev('sub_scalar', 1, lambda x, a: x - 1.0),
-    Ev('rsub_scalar', 1, lambda x, a: 1.0 - x),
+    Ev('add_scalar', 1, lambda x, a: x + a, args=(1.0, 0)),
+    Ev('sub_scalar', 1, lambda x, a: x - a, args=(1.0, 0)),
+    Ev('rsub_scalar', 1, lambda x, a: a - x, args=(1.0, 0)),
     Ev('div_scalar', 1, lambda x, a: x / a, args=(2.0, torch.tensor(4.0, dtype=torch.float64))),
     Ev('pow_none', 1, lambda x, a: x ** None),
     Ev('reshape', 1, _reshape, args=('merge', 'split', 'ones')),
@@ -477,9 +477,17 @@ class Explorer:
                 snaps[:] = [snapshot(x) for x in pool]
                 dirty = False
             n0 = len(pool)
+            g0 = (torch.get_default_dtype(), torch.is_grad_enabled())
             res, e = self.apply(pool, ev, idx, ai)
             self.transitions += 1
             h2 = hist + [(ev.name, idx, ai)]
+            g1 = (torch.get_default_dtype(), torch.is_grad_enabled())
+            if g1 != g0:
+                # interpreter-wide state leaked by the call: every later call (of any object) may now behave differently, which
+                # also invalidates the independence assumption behind the 'newest object' reduction
+                self.record('glob.%s.%s_changed' % (ev.name, 'default_dtype' if g1[0] != g0[0] else 'grad_mode'), h2, '%s -> %s' % (g0, g1))
+                torch.set_default_dtype(g0[0])
+                torch.set_grad_enabled(g0[1])
             oc = ev.name + (':raises:' + exc_name(e) if e is not None else ':' + type(res).__name__)
             self.outcomes[oc] = self.outcomes.get(oc, 0) + 1
             if e is not None:
@@ -641,8 +649,8 @@ DENSE = {
     'round': lambda x, a: _dn(x), 'getitem': lambda x, a: _dn(x)[_idx_expr(x, a)], 'sum': _dense_sum,
     'norm': lambda x, a: (_dn(x).abs() ** 2).sum() if a else (_dn(x).abs() ** 2).sum() ** 0.5,
     'full': lambda x, a: _dn(x), 'numpy': lambda x, a: _dn(x),
-    'mul_scalar': lambda x, a: _dn(x) * a, 'rmul_scalar': lambda x, a: 2.0 * _dn(x), 'add_scalar': lambda x, a: _dn(x) + 1.0,
-    'sub_scalar': lambda x, a: _dn(x) - 1.0, 'rsub_scalar': lambda x, a: 1.0 - _dn(x), 'div_scalar': lambda x, a: _dn(x) / float(a),
+    'mul_scalar': lambda x, a: _dn(x) * a, 'rmul_scalar': lambda x, a: 2.0 * _dn(x), 'add_scalar': lambda x, a: _dn(x) + a,
+    'sub_scalar': lambda x, a: _dn(x) - a, 'rsub_scalar': lambda x, a: a - _dn(x), 'div_scalar': lambda x, a: _dn(x) / float(a),
     'reshape': None, 'permute': lambda x, a: _dn(x).permute(list(range(len(x.N)))[::-1] + ([len(x.N) + i for i in list(range(len(x.N)))[::-1]] if x.is_ttm else [])),
     'to_qtt': None, 'diag': lambda x, a: _dense_diag(x), 'mprod': _dense_mprod, 'ctor_cores': lambda x, a: _dn(x),
     'pad': lambda x, a: _dense_pad(x, a) if not x.is_ttm else None,
@@ -742,6 +750,45 @@ def root_event_count(pid, with_slow=True, last_events=None, depth=2):
     if last_events is not None:
         evs = [c for c in evs if not c[0].slow and (depth > 1 or c[0].name in last_events)]
     return len(evs)
+
+
+def run_repeat(pid, name, idx, ai, inpl=None):
+    """Sequences on ONE object: E(x), [in-place event on x], E(x) again.  The second application must agree with the dense
+    definition on the object's CURRENT value (state cached on the object or keyed by it, memoised orthogonalisations, stale
+    flags after set_core / reduce_dims show here).  Returns (transitions, value checks, [(cls, detail)])."""
+    pool = init_pool(pid)
+    ev = EVBYNAME[name]
+    ex = Explorer(pid, 0)
+    found = []
+    hist = [(name, idx, ai)]
+    res1, e1 = ex.apply(pool, ev, idx, ai)
+    ntr = 1
+    if e1 is not None:
+        return ntr, 0, found
+    if inpl is not None:
+        iname, iai = inpl
+        iev = EVBYNAME[iname]
+        if iev.enabled is not None and not iev.enabled(pool[idx[0]]):
+            return ntr, 0, found
+        _, e2 = ex.apply(pool, iev, (idx[0],), iai)
+        ntr += 1
+        hist.append((iname, (idx[0],), iai))
+        if e2 is not None:
+            return ntr, 0, found
+        if ev.enabled is not None and not ev.enabled(*[pool[i] for i in idx]):
+            return ntr, 0, found
+    res2, e3 = ex.apply(pool, ev, idx, ai)
+    ntr += 1
+    hist.append((name, idx, ai))
+    if e3 is not None:
+        if inpl is None:
+            found.append(('repeat.%s.second_call_raises_%s' % (name, exc_name(e3)), '%r | pool %d history %s' % (e3, pid, [list(map(lambda t: list(t) if isinstance(t, tuple) else t, h)) for h in hist])))
+        return ntr, 0, found
+    vv = value_violation(ev, [pool[i] for i in idx], ev.args[ai], res2)
+    if vv:
+        tag = 'after_%s' % inpl[0] if inpl else 'second_call'
+        found.append(('repeat.%s.%s.%s' % (name, tag, vv[0]), '%s | pool %d history %s' % (vv[1], pid, [[h[0], list(h[1]), h[2]] for h in hist])))
+    return ntr, 1, found
 
 
 def replay_history(pid, hist, monitors=('wf', 'imm')):
